@@ -48,9 +48,21 @@ class Sym:
                 for i in range(n, len(key)):
                     v = self.project(v, key[i], key[:i + 1])
                 return v
+        # a place of which only parts were written (`self.slot = ..` with `*self` otherwise untouched), read as a whole (`helper(self)`):
+        # its entry value overlaid with the parts written since
+        subs = {k[len(key):]: v for k, v in self.mem.items() if len(k) > len(key) and k[:len(key)] == key and all(isinstance(e, str) and e.startswith(".") for e in k[len(key):])}
+        if subs:
+            return ("overlay", self.init_val(key), subs)
         return self.init_val(key)
 
     def project(self, base, last, key):
+        if base[0] == "overlay":
+            d = base[2]
+            if (last,) in d:
+                return d[(last,)]
+            inner = self.project(base[1], last, key)
+            deeper = {k[1:]: v for k, v in d.items() if k[0] == last and len(k) > 1}
+            return ("overlay", inner, deeper) if deeper else inner
         if last == "*":
             if base[0] == "ref":
                 return self.read_key(base[1])
